@@ -21,7 +21,7 @@
 (* Remove / re-pointing Add / Close; queue overflow) the expected entry    *)
 (* carries min = 0 or the watch entry is in state "ending" / "unsure".     *)
 (***************************************************************************)
-EXTENDS Integers, Sequences, FiniteSets, TLC, Ops, Paths
+EXTENDS Integers, Sequences, FiniteSets, TLC, SequencesExt, Ops, Paths
 
 EmptyFn == [x \in {} |-> 0]
 NoRec   == [ino |-> "", m |-> 0, n |-> ""]
@@ -32,6 +32,7 @@ InitW(cap) ==
   [ uw      |-> EmptyFn,   \* ino -> [path, mask, st, how, endSeq, rec, root]
     exp     |-> <<>>,      \* expected events, in kernel order
     eh      |-> 0,         \* number of entries of exp already consumed
+    mq      |-> <<>>,      \* indices (ascending) of the pending mandatory entries of exp
     skipped |-> <<>>,      \* mandatory entries that were passed over (lost unless they show up later = reordered)
     last    |-> NoRec,     \* last record queued for this instance (kernel tail merge)
     ck      |-> EmptyFn,   \* rename cookie -> name of the Rename event
@@ -41,6 +42,9 @@ InitW(cap) ==
     ovf     |-> FALSE,     \* the kernel queue may have overflowed
     dropped |-> FALSE,     \* an entry queued under ovf was not delivered
     gotOvf  |-> 0,
+    ovfFion |-> -1,        \* bytes in the kernel queue at the first observation after the overflow (queue full)
+    room    |-> 0,         \* lower bound on the free slots of the kernel queue since then (from observed FIONREAD)
+    readded |-> {},        \* paths added again after their watch ended or was re-pointed
     cap     |-> cap,
     postClose |-> 0,       \* events received after Close returned
     gonePaths |-> {},      \* paths whose watch ended by deletion / rename and that were not added again
@@ -67,7 +71,8 @@ Relax(ws, S) ==
   IF S = {} \/ ws.eh >= Len(ws.exp) THEN ws
   ELSE [ws EXCEPT !.exp = [k \in 1..Len(ws.exp) |->
             IF k > ws.eh /\ ws.exp[k].ino \in S /\ ws.exp[k].min = 1
-            THEN [ws.exp[k] EXCEPT !.min = 0] ELSE ws.exp[k]]]
+            THEN [ws.exp[k] EXCEPT !.min = 0] ELSE ws.exp[k]],
+                  !.mq = SelectSeq(@, LAMBDA q : ws.exp[q].ino \notin S)]
 \* The Remove event of a deleted watched path is suppressed while its parent directory is listed (the
 \* parent reports it).  When the parent leaves the list before the record is processed the event may appear.
 Unsuppress(ws, P) ==
@@ -82,7 +87,8 @@ RelaxChildRemoves(ws, P) ==
   IF ws.eh >= Len(ws.exp) THEN ws
   ELSE [ws EXCEPT !.exp = [k \in 1..Len(ws.exp) |->
             IF k > ws.eh /\ ws.exp[k].self /\ ws.exp[k].min = 1 /\ HasBit(ws.exp[k].op, OpRemove) /\ Dir(ws.exp[k].name) = P
-            THEN [ws.exp[k] EXCEPT !.min = 0] ELSE ws.exp[k]]]
+            THEN [ws.exp[k] EXCEPT !.min = 0] ELSE ws.exp[k]],
+                  !.mq = SelectSeq(@, LAMBDA q : ~(ws.exp[q].self /\ HasBit(ws.exp[q].op, OpRemove) /\ Dir(ws.exp[q].name) = P))]
 RelaxAll(ws) == Relax(ws, {ws.exp[k].ino : k \in (ws.eh+1)..Len(ws.exp)})
 
 ---------------------------------------------------------------------------
@@ -110,11 +116,15 @@ ApplyRec(ws, r, s, maxq) ==
       from  == IF HasBit(vis, IN_MOVED_TO) /\ r.ck # 0 /\ r.ck \in DOMAIN ws.ck THEN ws.ck[r.ck] ELSE <<>>
       pst   == IF dself THEN ParentState(ws, e.path) ELSE "none"
       merged== ws.last.ino = r.ino /\ ws.last.m = r.m /\ ws.last.n = r.n
-      min   == IF e.st # "live" \/ merged \/ ws.ovf \/ pst = "other" THEN 0 ELSE 1
+      certain == ws.ovf /\ ws.room > 0         \* the queue is known to have room again (observed), see CheckObs
+      min   == IF e.st # "live" \/ merged \/ (ws.ovf /\ ~certain) \/ pst = "other" THEN 0 ELSE 1
       ent   == [seq |-> s, ino |-> r.ino, name |-> name, op |-> op, from |-> from,
-                min |-> IF pst = "live" THEN 0 ELSE min, ovf |-> ws.ovf, self |-> (r.n = ""), sup |-> (pst = "live"), ck |-> r.ck]
+                min |-> IF pst = "live" THEN 0 ELSE min, ovf |-> (ws.ovf /\ ~certain), self |-> (r.n = ""), sup |-> (pst = "live"), ck |-> r.ck]
       queued== vis # 0 \/ ign
-      w1 == IF op = 0 \/ (mself /\ e.rec) THEN ws ELSE [ws EXCEPT !.exp = Append(@, ent)]
+      \* an ended watch reports nothing further: records queued behind its end record yield no expectation
+      w1 == IF op = 0 \/ (mself /\ e.rec) \/ e.st = "ending" THEN ws
+            ELSE [ws EXCEPT !.exp = Append(@, ent), !.room = IF certain THEN @ - 1 ELSE @,
+                            !.mq = IF ent.min = 1 THEN Append(@, Len(ws.exp) + 1) ELSE @]
       w2 == IF HasBit(vis, IN_MOVED_FROM) /\ r.ck # 0
             THEN [w1 EXCEPT !.ck = (r.ck :> name) @@ @] ELSE w1
       w3 == IF e.st = "ending" /\ e.how = "move" /\ (HasBit(r.m, IN_DELETE_SELF) \/ ign)
@@ -137,31 +147,36 @@ ApplyRec(ws, r, s, maxq) ==
 
 Match(x, v) == x.name = v.name /\ x.op = v.op
 
-(* Which expected entries may a received event v stand for?  Walking from    *)
-(* the head over optional entries only: the earliest optional match and the  *)
-(* first mandatory match are the candidates (identical optional entries      *)
-(* after the first are dominated by it); the walk stops at the first         *)
-(* mandatory entry.  More than one candidate means the trace does not        *)
-(* determine the matching; the trace specification then branches and TLC     *)
-(* searches for a matching without violation.                                *)
-RECURSIVE Cands(_, _, _, _, _, _)
-Cands(ws, v, i, lim, haveOpt, sup) ==
-  IF i > Len(ws.exp) \/ i > lim THEN {}
-  ELSE LET x == ws.exp[i] IN
-       IF x.min = 1 THEN (IF Match(x, v) THEN {i} ELSE {})
-       ELSE IF Match(x, v) /\ ~haveOpt /\ x.sup = sup THEN {i} \cup Cands(ws, v, i + 1, lim, TRUE, sup)
-       ELSE Cands(ws, v, i + 1, lim, haveOpt, sup)
+(* Which expected entries may a received event v stand for?  Only optional  *)
+(* entries may be passed over.  Candidates are the earliest matching         *)
+(* optional entry before the first pending mandatory entry, and that         *)
+(* mandatory entry itself if it matches (identical optional entries after    *)
+(* the first are dominated by it).  More than one candidate means the trace  *)
+(* does not determine the matching; the trace specification then branches    *)
+(* and TLC searches for a matching without violation.                        *)
+(* ws.mq is the queue of indices of pending mandatory entries, so that the   *)
+(* search does not depend on the length of exp (bursts of 10^4 records).     *)
+OptWindow == 512
+MinI(a, b) == IF a < b THEN a ELSE b
+FirstIdx(ws, a, b, T(_)) ==
+  IF a > b \/ a > Len(ws.exp) THEN 0
+  ELSE LET k == SelectInSeq(SubSeq(ws.exp, a, MinI(b, Len(ws.exp))), T) IN IF k = 0 THEN 0 ELSE a + k - 1
 
-RECURSIVE FirstMand(_, _, _)
-FirstMand(ws, i, lim) ==
-  IF i > Len(ws.exp) \/ i > lim THEN 0
-  ELSE IF ws.exp[i].min = 1 THEN i ELSE FirstMand(ws, i + 1, lim)
+FirstMandIdx(ws) == IF ws.mq = <<>> THEN 0 ELSE Head(ws.mq)
+
+Cands(ws, v, sup) ==
+  LET a == ws.eh + 1
+      m == FirstMandIdx(ws)
+      lastOpt == IF m = 0 THEN Len(ws.exp) ELSE m - 1
+      o1 == FirstIdx(ws, a, MinI(lastOpt, a + OptWindow - 1), LAMBDA x : Match(x, v) /\ x.sup = sup)
+      \* behind a run of entries that an overflow may have dropped, look further
+      o2 == IF o1 = 0 /\ a <= Len(ws.exp) /\ ws.exp[a].ovf
+            THEN FirstIdx(ws, a + OptWindow, lastOpt, LAMBDA x : Match(x, v) /\ x.sup = sup) ELSE 0
+      o  == IF o1 # 0 THEN o1 ELSE o2
+  IN (IF o # 0 THEN {o} ELSE {}) \cup (IF m # 0 /\ Match(ws.exp[m], v) THEN {m} ELSE {})
 
 \* an event may also stand for an entry behind a mandatory one (that one is then lost or reordered)
-RECURSIVE FirstMatch(_, _, _, _)
-FirstMatch(ws, v, i, lim) ==
-  IF i > Len(ws.exp) \/ i > lim THEN 0
-  ELSE IF Match(ws.exp[i], v) THEN i ELSE FirstMatch(ws, v, i + 1, lim)
+FirstMatch(ws, v) == FirstIdx(ws, ws.eh + 1, ws.eh + ScanWindow, LAMBDA x : Match(x, v))
 
 HasUnknown(p) == \E k \in 1..Len(p) : Len(p[k]) > 0 /\ SubSeq(p[k], 1, 1) = "?"
 
@@ -170,11 +185,14 @@ PassOver(ws, j) ==
   LET seg == SubSeq(ws.exp, ws.eh + 1, j - 1) IN
   [ws EXCEPT !.skipped = @ \o SelectSeq(seg, LAMBDA x : x.min = 1),
              !.dropped = @ \/ (\E k \in 1..Len(seg) : seg[k].ovf),
+             !.mq = IF @ = <<>> \/ Head(@) > j THEN @
+                    ELSE IF Head(@) = j /\ (Len(@) = 1 \/ @[2] > j) THEN Tail(@)
+                    ELSE SelectSeq(@, LAMBDA q : q > j),
              !.eh = j]
 
-\* the lag window of an ended watch closes once an event of a later record has been received
+\* the lag window of an ended watch closes once the event of its end record, or of a later record, has been received
 CloseLag(ws, seq) ==
-  LET G == {i \in DOMAIN ws.uw : ws.uw[i].st = "ending" /\ ws.uw[i].endSeq < seq} IN
+  LET G == {i \in DOMAIN ws.uw : ws.uw[i].st = "ending" /\ ws.uw[i].endSeq <= seq} IN
   IF G = {} THEN ws ELSE [ws EXCEPT !.uw = Without(@, G)]
 
 Consume(ws, v, j) ==
@@ -196,9 +214,8 @@ RecvEv(ws0, v) ==
   IF v.op = 0 THEN {Bad(ws, {"C02"}, "empty_op")}
   ELSE IF ws.fog THEN {ws}
   ELSE
-  LET lim == ws.eh + ScanWindow
-      C0  == Cands(ws, v, ws.eh + 1, lim, FALSE, FALSE)
-      C   == IF C0 # {} THEN C0 ELSE Cands(ws, v, ws.eh + 1, lim, FALSE, TRUE)   \* a suppressed entry only as last resort
+  LET C0  == Cands(ws, v, FALSE)
+      C   == IF C0 # {} THEN C0 ELSE Cands(ws, v, TRUE)   \* a suppressed entry only as last resort
   IN
   IF C # {} THEN {Consume(IF Cardinality(C) > 1 THEN Note(ws, "ambiguous_match") ELSE ws, v, j) : j \in C}
   ELSE
@@ -207,8 +224,8 @@ RecvEv(ws0, v) ==
         LET q == CHOOSE q \in sk : \A q2 \in sk : q <= q2 IN
         {Bad([ws EXCEPT !.skipped = SubSeq(@, 1, q - 1) \o SubSeq(@, q + 1, Len(@))], {"C03"}, "reordered:" \o OpName(v.op))}
      ELSE
-        LET h == FirstMand(ws, ws.eh + 1, lim)
-            i == FirstMatch(ws, v, ws.eh + 1, lim) IN
+        LET h == FirstMandIdx(ws)
+            i == FirstMatch(ws, v) IN
         IF i # 0 THEN {Consume(ws, v, i)}             \* passes over a mandatory entry: lost or reordered, decided later
         ELSE IF h # 0 /\ ws.exp[h].op = v.op /\ ws.exp[h].name # v.name
         THEN {Bad(PassOver(ws, h), {"C08", "C01", "C02"}, "wrong_name:" \o OpName(v.op))}
@@ -242,13 +259,14 @@ Settle(ws) ==
       lost  == ws.skipped \o lostR
       drop  == ws.dropped \/ (\E k \in 1..Len(rest) : rest[k].ovf)
       w1 == IF lost # <<>> /\ ~ws.fog /\ ws.phase = "open"
-            THEN Bad(ws, {"C01"} \cup (IF lost[1].ino \in DOMAIN ws.uw /\ ws.uw[lost[1].ino].st # "live" THEN {"C09"} ELSE {}),
+            THEN Bad(ws, {"C01"} \cup (IF lost[1].ino \in DOMAIN ws.uw /\ (ws.uw[lost[1].ino].st # "live" \/ ws.uw[lost[1].ino].path \in ws.readded)
+                                       THEN {"C09"} ELSE {}),
                      "lost:" \o OpName(lost[1].op)) ELSE ws
       w2 == IF drop /\ ws.gotOvf = 0 /\ ws.phase = "open" /\ ~ws.fog
             THEN Bad(w1, {"C01", "C10"}, "overflow_not_reported") ELSE w1
       G  == {i \in DOMAIN ws.uw : ws.uw[i].st = "ending"}
-  IN [w2 EXCEPT !.exp = <<>>, !.eh = 0, !.skipped = <<>>, !.last = NoRec, !.nq = 0, !.ovf = FALSE,
-                !.dropped = FALSE, !.gotOvf = 0, !.uw = Without(@, G), !.flags = {}, !.seenCk = {}]
+  IN [w2 EXCEPT !.exp = <<>>, !.eh = 0, !.mq = <<>>, !.skipped = <<>>, !.last = NoRec, !.nq = 0, !.ovf = FALSE,
+                !.dropped = FALSE, !.gotOvf = 0, !.uw = Without(@, G), !.flags = {}, !.seenCk = {}, !.ovfFion = -1, !.room = 0]
 
 ---------------------------------------------------------------------------
 (* API calls. *)
@@ -276,11 +294,12 @@ IdealAdd(ws, P, i, reserr, mask, ret) ==
             THEN Note(Relax([ws EXCEPT !.uw = [j \in DOMAIN @ |-> IF j \in same THEN [@[j] EXCEPT !.st = "unsure", !.how = "alias"] ELSE @[j]]], same), "repoint_alias")
             ELSE [ws EXCEPT !.fog = TRUE]
        ELSE Note(Relax([ws EXCEPT !.uw = (i :> Entry(P, mask, FALSE)) @@ Without(@, same),
-                                  !.gonePaths = @ \ {P}], same), "repoint")
+                                  !.gonePaths = @ \ {P}, !.readded = @ \cup {P}], same), "repoint")
   ELSE IF i \in DOMAIN ws.uw THEN
        IF ws.uw[i].st = "live" THEN Note(ws, "alias_add")  \* same file under another name: nothing changes
        ELSE [ws EXCEPT !.fog = TRUE]
-  ELSE RelaxChildRemoves([ws EXCEPT !.uw = (i :> Entry(P, mask, FALSE)) @@ @, !.gonePaths = @ \ {P}], P)
+  ELSE RelaxChildRemoves([ws EXCEPT !.uw = (i :> Entry(P, mask, FALSE)) @@ @, !.gonePaths = @ \ {P},
+                                    !.readded = IF P \in ws.gonePaths THEN @ \cup {P} ELSE @], P)
 
 IdealRemove(ws, P, ret) ==
   IF ws.phase = "closing" THEN ws
@@ -291,7 +310,7 @@ IdealRemove(ws, P, ret) ==
       w1   == Unsuppress(Relax([ws EXCEPT !.uw = Without(@, same)], same), P)
   IN
   IF live # {} THEN
-       (IF ret = "ok" THEN w1 ELSE Bad(w1, {"C04"}, "remove_failed:" \o ret))
+       (IF ret = "ok" THEN w1 ELSE Bad(w1, {"C04"} \cup (IF P \in ws.readded THEN {"C09"} ELSE {}), "remove_failed:" \o ret))
   ELSE IF same # {} THEN
        (IF ret \in {"ok", "ErrNonExistentWatch", "errno:EINVAL"} THEN Note(w1, "remove_in_lag") ELSE Bad(w1, {"C04", "C09"}, "remove_ended:" \o ret))
   ELSE IF ret = "ErrNonExistentWatch" THEN Note(ws, "remove_nonexistent")
@@ -307,7 +326,7 @@ CheckWL(ws, wl, wlnil) ==
       liveP == PathsOf(ws, Live(ws))
       allP  == PathsOf(ws, DOMAIN ws.uw)
       w1 == IF Len(wl) # Cardinality(set) THEN Bad(ws, {"C04", "C07"}, "watchlist_duplicate") ELSE ws
-      w2 == IF liveP \ set # {} THEN Bad(w1, {"C04"}, "watchlist_missing") ELSE w1
+      w2 == IF liveP \ set # {} THEN Bad(w1, {"C04"} \cup (IF (liveP \ set) \cap ws.readded # {} THEN {"C09"} ELSE {}), "watchlist_missing") ELSE w1
       w3 == IF set \ allP # {}
             THEN Bad(w2, {"C04"} \cup (IF (set \ allP) \cap ws.gonePaths # {} THEN {"C09"} ELSE {}), "watchlist_extra") ELSE w2
       U  == {j \in DOMAIN ws.uw : ws.uw[j].st = "unsure"}
@@ -324,8 +343,17 @@ IdealClose(ws, ret) ==
 
 ObsIdle(o) == o.rd = "IO wait" /\ o.fion = 0 /\ o.len = 0
 
-CheckObs(ws0, o, defcap) ==
-  LET ws == IF ObsIdle(o) /\ ws0.phase = "open" THEN Settle(ws0) ELSE ws0
+\* While an overflow is possible, the observed size of the kernel queue bounds how much room it has again:
+\* a record is at most 272 bytes, so a queue that shrank by b bytes has at least b / 272 free slots.
+ObsRoom(ws, o) ==
+  IF ~ws.ovf THEN ws
+  ELSE IF ws.ovfFion = -1 THEN [ws EXCEPT !.ovfFion = o.fion]
+  ELSE LET r == ((ws.ovfFion - o.fion) \div 272) - 2 IN
+       IF r > ws.room THEN [ws EXCEPT !.room = r] ELSE ws
+
+CheckObs(ws00, o, defcap) ==
+  LET ws0 == ObsRoom(ws00, o)
+      ws == IF ObsIdle(o) /\ ws0.phase = "open" THEN Settle(ws0) ELSE ws0
       wantCap == IF ws.cap < 0 THEN defcap ELSE ws.cap
       w0 == IF o.cap # wantCap THEN Bad(ws, {"C14"}, "capacity") ELSE ws
   IN
